@@ -6,7 +6,10 @@ artefacts).  Usage (inside an implementation driver, BEFORE importing autobahn):
 import hashlib, importlib.util, os, sys, fcntl, shutil
 
 NVX = os.environ.get("AV_REPO", "/repo") + "/src/autobahn/nvx"
-OUT = os.path.join(os.path.dirname(os.path.dirname(os.path.dirname(os.path.abspath(__file__)))), "build", "nvx")
+_TREE = hashlib.sha256(os.path.realpath(os.environ.get("AV_REPO", "/repo")).encode()).hexdigest()[:8]
+# one output directory per tree under test, so concurrent runs on different trees cannot evict each other's build
+OUT = os.path.join(os.path.dirname(os.path.dirname(os.path.dirname(os.path.abspath(__file__)))), "build", "nvx",
+                   "repo" if os.environ.get("AV_REPO", "/repo") == "/repo" else "alt-" + _TREE)
 
 
 def _hash():
